@@ -62,6 +62,13 @@ func solve(dir string, ob *Obligation, idx int, timeoutS int, second bool) {
 		return
 	}
 	ctx := context.Background()
+	if ob.Cover {
+		// vacuity probe: only "unsat" (contradictory assumptions) matters; a model search with quantifiers
+		// may not terminate, so it gets a short budget and a single solver
+		r := runSolver(ctx, solvers[0], file, 3)
+		ob.Status, ob.Solver, ob.Time, ob.Output = r.status, r.solver, r.secs, r.out
+		return
+	}
 	r := runSolver(ctx, solvers[0], file, timeoutS)
 	total := r.secs
 	if r.status == "unknown" {
